@@ -218,3 +218,51 @@ Theorem C10_consumer_accounting_segment : forall cf reqs s1 s2 d c,
   forall g1, cgen_of d1 c = Some g1 -> c_alive cf c s2 ts1 d1 -> cgen_of d2 c = Some (g1 + (sumZ tl2 - sumZ tl1)).
 Proof. exact c06a_accounting_segment. Qed.
 Print Assumptions C10_consumer_accounting_segment.
+
+(* ------------------------------------------------------------------------------------------------------------------
+   Exact increments under interleaving (Proofs/C10d.v). *)
+From PV Require Import Proofs.C12a Proofs.C10d.
+
+(* a PUT / POST /allocations that names provider u in an allocation with resources (a_wp; C10_provider_exact_requests) and is
+   answered with success has added EXACTLY 1 to u's generation - whatever the schedule, retries included *)
+Theorem C10_provider_exact : forall cf reqs s d u,
+  let '(ts, _, tl) := a_run_tally cf u s (map (ainit cf) reqs) d (map (fun _ => 0) reqs) in
+  forall i r t rs, nth_error reqs i = Some r -> a_wp (ainit cf r) u ->
+    nth_error ts i = Some t -> a_resp t = Some rs -> status rs < 300 -> nth_error tl i = Some 1.
+Proof. exact c10d_provider_exact. Qed.
+Print Assumptions C10_provider_exact.
+Theorem C10_provider_exact_requests : forall cf u,
+  (forall v e, a_wp (ainit cf (AllocPut v e)) u <-> exists a, In a (ci_allocs e) /\ ai_rp a = u /\ ai_res a <> []) /\
+  (forall v l, 13 <= v -> (a_wp (ainit cf (AllocPost v l)) u <->
+     exists e a, In e l /\ In a (ci_allocs e) /\ ai_rp a = u /\ ai_res a <> [])).
+Proof. exact wp_table. Qed.
+Print Assumptions C10_provider_exact_requests.
+
+(* an allocation write (PUT, POST, POST /reshaper) that names consumer c with non-empty allocations and is answered with success
+   has added EXACTLY 1 to c's generation *)
+Theorem C10_consumer_exact : forall cf reqs s d c,
+  let '(ts, _, tl) := c_run_tally cf c s (map (ainit cf) reqs) d (map (fun _ => 0) reqs) in
+  forall i r t rs, nth_error reqs i = Some r -> a_ww (ainit cf r) c ->
+    nth_error ts i = Some t -> a_resp t = Some rs -> status rs < 300 -> nth_error tl i = Some 1.
+Proof. exact c10d_consumer_exact. Qed.
+Print Assumptions C10_consumer_exact.
+Theorem C10_consumer_exact_requests : forall cf c r, req_wf r = true ->
+  (exists e, In e (req_consumers r) /\ ci_uuid e = c /\ ci_allocs e <> []) ->
+  match r with AllocPost v _ => 13 <= v | Reshape v _ _ => 30 <= v | _ => True end ->
+  a_ww (ainit cf r) c.
+Proof. exact ww_table. Qed.
+Print Assumptions C10_consumer_exact_requests.
+
+(* POST /reshaper (providers named once in its inventories section): its main transaction moves the generation of a provider u
+   by reshape_incr = (1 if u is named with inventories) + (1 if an allocation object is on u) + (1 if u is named): between 0
+   and 3, 1 for a provider that only receives or loses allocations, 2 or 3 for the providers being reshaped *)
+Theorem C10_reshape_exact : forall x ks objs d d', x_kind x = KReshape -> nodupb (map ri_rp (x_ri x)) = true ->
+  main_txn x ks objs d = Ok d' ->
+  forall u g, gen_of d u = Some g -> gen_of d' u = Some (g + reshape_incr (x_ri x) objs u).
+Proof. exact c10d_reshape_exact. Qed.
+Print Assumptions C10_reshape_exact.
+Theorem C10_reshape_step : forall snap x ks objs d d' u, x_kind x = KReshape -> nodupb (map ri_rp (x_ri x)) = true ->
+  main_txn_cached snap x ks objs d = Ok d' -> gen_of d u <> None ->
+  gdelta d d' u = reshape_incr (x_ri x) objs u /\ 0 <= gdelta d d' u <= 3.
+Proof. exact c10d_reshape_step. Qed.
+Print Assumptions C10_reshape_step.
